@@ -5,7 +5,10 @@
 //! immediately, so no second atomic state machine is needed here.
 
 use std::{
-    sync::OnceLock,
+    sync::{
+        OnceLock,
+        atomic::{Ordering, fence},
+    },
     thread::{self, Thread},
     time::Duration,
 };
@@ -31,6 +34,13 @@ impl WaitSlot {
         self.thread
             .set(thread::current())
             .expect("scheduler wait thread registered more than once");
+        // Registration races with `notify` in the store-buffering shape: the waiter stores its
+        // handle and then loads the state its predicate reads, a notifier stores that state and
+        // then loads the handle. Nothing orders the handle store before a concurrent notifier's
+        // load (notifiers are not spawned after it), so without a sequentially consistent fence
+        // on both sides each may miss the other: the notifier sees no thread to unpark and the
+        // waiter parks on the old state until the stall timeout.
+        fence(Ordering::SeqCst);
     }
 
     pub(super) fn notify(&self) {
@@ -39,6 +49,8 @@ impl WaitSlot {
             slot: self as *const Self as usize,
             had_thread: self.thread.get().is_some(),
         });
+        // Pairs with the fence in `register_current_thread`.
+        fence(Ordering::SeqCst);
         if let Some(thread) = self.thread.get() {
             thread.unpark();
         }
